@@ -1,6 +1,6 @@
-(* Proofs about Model.backoff: bounds and monotonicity in the retry count for
-   every retry count under the guard 0 <= base <= max <= 2^53, and the
-   counterexamples outside the guard (finding B1). *)
+(* Proofs about Model.backoff (the code after fix 76e44a5): bounds and
+   monotonicity in the retry count for every retry count and every pair of
+   int64 values base <= max; no further guard is needed. *)
 From Coq Require Import ZArith Reals Lia Lra Bool Arith.
 From Flocq Require Import Core.Core IEEE754.BinarySingleNaN.
 From GV Require Import Prober.F64 Prober.F64Facts Prober.Model Prober.Monitors.
@@ -79,44 +79,75 @@ Proof.
 Qed.
 
 (* ------------------------------------------------------------------------ *)
-(** Floating-point part, under the guard. *)
+(** Floating-point part: every int64 base <= max. *)
 Section Guarded.
   Variables base mx : Z.
   Hypothesis Hg : backoff_guard base mx = true.
 
-  Let Hb0 : 0 <= base. Proof. unfold backoff_guard in Hg. apply andb_true_iff in Hg. destruct Hg as [H _]. apply andb_true_iff in H. destruct H as [H _]. now apply Z.leb_le. Qed.
-  Let Hbm : base <= mx. Proof. unfold backoff_guard in Hg. apply andb_true_iff in Hg. destruct Hg as [H _]. apply andb_true_iff in H. destruct H as [_ H]. now apply Z.leb_le. Qed.
-  Let Hm53 : mx <= 2 ^ 53. Proof. unfold backoff_guard in Hg. apply andb_true_iff in Hg. destruct Hg as [_ H]. now apply Z.leb_le. Qed.
+  Let Hib : in_int64 base = true.
+  Proof. unfold backoff_guard in Hg. apply andb_true_iff in Hg. destruct Hg as [H _]. apply andb_true_iff in H. tauto. Qed.
+  Let Him : in_int64 mx = true.
+  Proof. unfold backoff_guard in Hg. apply andb_true_iff in Hg. destruct Hg as [H _]. apply andb_true_iff in H. tauto. Qed.
+  Let Hbm : base <= mx.
+  Proof. unfold backoff_guard in Hg. apply andb_true_iff in Hg. destruct Hg as [_ H]. now apply Z.leb_le. Qed.
 
   Let m := f64_of_int mx.
   Let b0 := f64_of_int base.
 
-  Lemma m_exact : b2r m = IZR mx /\ fin m = true.
-  Proof. apply f64_of_int_exact. lia. Qed.
+  Lemma m_round : b2r m = rnd64 (IZR mx) /\ fin m = true /\ (Rabs (b2r m) <= IZR (2 ^ 63))%R.
+  Proof. apply f64_of_int_round. exact Him. Qed.
 
-  Lemma b0_exact : b2r b0 = IZR base /\ fin b0 = true.
-  Proof. apply f64_of_int_exact. lia. Qed.
+  Lemma b0_round : b2r b0 = rnd64 (IZR base) /\ fin b0 = true /\ (Rabs (b2r b0) <= IZR (2 ^ 63))%R.
+  Proof. apply f64_of_int_round. exact Hib. Qed.
+
+  Lemma in_int64_bounds : forall z, in_int64 z = true -> min_int64 <= z <= max_int64.
+  Proof.
+    intros z H. unfold in_int64 in H. apply andb_true_iff in H. destruct H as [A B].
+    apply Z.leb_le in A, B. lia.
+  Qed.
+
+  (* float64(base) >= -2^63 *)
+  Lemma b0_lower : (IZR min_int64 <= b2r b0)%R.
+  Proof.
+    destruct b0_round as (E & _ & _). rewrite E.
+    rewrite <- (round_generic radix2 fexp64 (round_mode mode_NE) (IZR min_int64)).
+    - apply round_le; auto with typeclass_instances. apply IZR_le.
+      apply (in_int64_bounds base Hib).
+    - change min_int64 with (- 2 ^ 63)%Z. rewrite opp_IZR. apply generic_format_opp. apply format_two63.
+  Qed.
 
   (* loop invariant *)
-  Definition Inv (b : f64) : Prop := fin b = true /\ (IZR base <= b2r b)%R.
+  Definition Inv (b : f64) : Prop := fin b = true /\ (b2r b0 <= b2r b)%R.
 
   Lemma inv_b0 : Inv b0.
-  Proof. destruct b0_exact as [E F]. split; [exact F | rewrite E; apply Rle_refl]. Qed.
+  Proof. destruct b0_round as (_ & F & _). split; [exact F | apply Rle_refl]. Qed.
 
-  Lemma step_inv :
-    forall b b', Inv b -> bo_step m b = Some b' -> Inv b' /\ (b2r b <= b2r b')%R.
+  Lemma step_spec :
+    forall b b', fin b = true -> bo_step m b = Some b' ->
+    (0 < b2r b < b2r m)%R /\ fin b' = true /\ (b2r b <= b2r b')%R.
   Proof.
-    intros b b' [Fb Lb] S. unfold bo_step in S.
-    destruct (f64_lt b m) eqn:L; [| discriminate]. injection S as <-.
-    destruct m_exact as [Em Fm].
+    intros b b' Fb S. unfold bo_step in S.
+    destruct m_round as (_ & Fm & Am).
+    destruct (f64_gt b f64_zero) eqn:G; [| discriminate].
+    destruct (f64_lt b m) eqn:L; [| discriminate]. simpl in S. injection S as <-.
+    rewrite (f64_gt_spec b f64_zero Fb eq_refl) in G.
     rewrite (f64_lt_spec b m Fb Fm) in L.
+    change (b2r f64_zero) with 0%R in G.
+    destruct (Rlt_bool_spec 0 (b2r b)) as [Pos | _]; [| discriminate].
     destruct (Rlt_bool_spec (b2r b) (b2r m)) as [Lt | _]; [| discriminate].
-    assert (R : (0 <= b2r b <= IZR (2 ^ 53))%R).
-    { split.
-      - apply Rle_trans with (2 := Lb). now apply IZR_le.
-      - apply Rle_trans with (IZR mx). rewrite <- Em. lra. now apply IZR_le. }
+    assert (R : (0 <= b2r b <= IZR (2 ^ 63))%R).
+    { split; [lra |]. apply Rle_trans with (2 := Am).
+      apply Rle_trans with (b2r m); [lra | apply Rle_abs]. }
     destruct (mul15_correct b Fb R) as (F' & _ & Le).
-    split; [split; [exact F' | lra] | exact Le].
+    repeat split; assumption.
+  Qed.
+
+  Lemma step_none_stays :
+    forall b, fin b = true -> (b2r m <= b2r b)%R -> bo_step m b = None.
+  Proof.
+    intros b Fb H. unfold bo_step. destruct m_round as (_ & Fm & _).
+    rewrite (f64_lt_spec b m Fb Fm).
+    destruct (Rlt_bool_spec (b2r b) (b2r m)); [lra |]. now rewrite andb_false_r.
   Qed.
 
   Lemma iter_inv : forall n b, Inv b -> Inv (bo_iter m n b) /\ (b2r b <= b2r (bo_iter m n b))%R.
@@ -124,50 +155,52 @@ Section Guarded.
     induction n as [|n IH]; intros b I; simpl.
     - split; [exact I | apply Rle_refl].
     - destruct (bo_step m b) as [b'|] eqn:E.
-      + destruct (step_inv b b' I E) as [I' L]. destruct (IH b' I') as [I'' L'].
-        split; [exact I'' | lra].
+      + destruct I as [Fb Lb]. destruct (step_spec b b' Fb E) as (_ & F' & L).
+        assert (I' : Inv b') by (split; [exact F' | lra]).
+        destruct (IH b' I') as [I'' L']. split; [exact I'' | lra].
       + split; [exact I | apply Rle_refl].
   Qed.
 
-  (* after the clamp *)
-  Lemma clamp_inv :
+  (* the result when the loop left the float at b *)
+  Lemma final_cases :
     forall b, Inv b ->
-    fin (bo_clamp m b) = true /\ (IZR base <= b2r (bo_clamp m b) <= IZR mx)%R /\
-    b2r (bo_clamp m b) = Rmin (b2r b) (IZR mx).
+    ((b2r m <= b2r b)%R /\ bo_final base mx m b = mx) \/
+    ((b2r b < b2r m)%R /\ bo_final base mx m b = Z.max (Ztrunc (b2r b)) base /\
+     Ztrunc (b2r b) <= mx).
   Proof.
-    intros b [Fb Lb]. destruct m_exact as [Em Fm]. unfold bo_clamp.
-    rewrite (f64_gt_spec b m Fb Fm). rewrite Em.
-    destruct (Rlt_bool_spec (IZR mx) (b2r b)) as [Gt | Le].
-    - split; [exact Fm |]. rewrite Em. split.
-      + split; [now apply IZR_le | apply Rle_refl].
-      + rewrite Rmin_right; lra.
-    - split; [exact Fb |]. split; [lra |]. rewrite Rmin_left; lra.
+    intros b [Fb Lb]. destruct m_round as (Em & Fm & _). unfold bo_final.
+    rewrite (f64_ge_spec b m Fb Fm).
+    destruct (Rle_bool_spec (b2r m) (b2r b)) as [Ge | Lt].
+    - left. split; [exact Ge | reflexivity].
+    - right. split; [exact Lt |].
+      assert (Ub : (b2r b <= IZR mx)%R) by (apply float_lt_round_le; rewrite <- Em; exact Lt).
+      assert (Lb' : (IZR min_int64 <= b2r b)%R) by (apply Rle_trans with (1 := b0_lower); exact Lb).
+      destruct (to_int64_bounds b min_int64 mx Fb eq_refl Him (conj Lb' Ub)) as [T [_ U]].
+      rewrite T in *. split; [| exact U].
+      destruct (Ztrunc (b2r b) >? base) eqn:C.
+      + apply Z.gtb_lt in C. lia.
+      + rewrite Z.gtb_ltb in C. apply Z.ltb_ge in C. lia.
   Qed.
 
-  Lemma in_int64_base : in_int64 base = true.
-  Proof. unfold in_int64, min_int64, max_int64, two63. apply andb_true_iff; split; apply Z.leb_le; lia. Qed.
-  Lemma in_int64_mx : in_int64 mx = true.
-  Proof. unfold in_int64, min_int64, max_int64, two63. apply andb_true_iff; split; apply Z.leb_le; lia. Qed.
+  Definition final (n : nat) : Z := bo_final base mx m (bo_iter m n b0).
 
-  Definition final (n : nat) : Z := f64_to_int64 (bo_clamp m (bo_iter m n b0)).
-
-  Lemma final_spec :
-    forall n, final n = Ztrunc (Rmin (b2r (bo_iter m n b0)) (IZR mx)) /\ base <= final n <= mx.
+  Lemma final_bounds : forall n, base <= final n <= mx.
   Proof.
-    intro n. destruct (iter_inv n b0 inv_b0) as [I _].
-    destruct (clamp_inv _ I) as (F & R & E).
-    destruct (to_int64_bounds _ base mx F in_int64_base in_int64_mx R) as [T B].
-    unfold final. rewrite <- E. split; [exact T | exact B].
+    intro n. destruct (iter_inv n b0 inv_b0) as [I _]. unfold final.
+    destruct (final_cases _ I) as [[_ ->] | (_ & -> & U)]; lia.
   Qed.
 
   Lemma final_mono_S : forall n, final n <= final (S n).
   Proof.
-    intro n. rewrite (proj1 (final_spec n)), (proj1 (final_spec (S n))).
-    apply Ztrunc_le. apply Rle_min_compat_r.
-    rewrite bo_iter_S_end. destruct (iter_inv n b0 inv_b0) as [I _].
-    destruct (bo_step m (bo_iter m n b0)) as [b'|] eqn:E.
-    - apply (step_inv _ _ I E).
-    - apply Rle_refl.
+    intro n. pose proof (final_bounds (S n)) as BS. unfold final in *.
+    rewrite bo_iter_S_end in *. destruct (iter_inv n b0 inv_b0) as [I _].
+    destruct (bo_step m (bo_iter m n b0)) as [b'|] eqn:E; [| lia].
+    destruct I as [Fx Lx]. destruct (step_spec _ _ Fx E) as ([_ Lt] & F' & Le).
+    assert (I' : Inv b') by (split; [exact F' | lra]).
+    destruct (final_cases _ (conj Fx Lx)) as [[Ge _] | (_ & -> & U)]; [lra |].
+    destruct (final_cases _ I') as [[_ ->] | (_ & -> & U')].
+    - lia.
+    - pose proof (Ztrunc_le _ _ Le). lia.
   Qed.
 
   Lemma final_mono : forall n k, (n <= k)%nat -> final n <= final k.
@@ -179,7 +212,7 @@ Section Guarded.
   Lemma backoff_bounds_guarded : forall retries, base <= backoff base mx retries <= mx.
   Proof.
     intro retries. rewrite backoff_eq_nat. unfold backoff_nat.
-    apply (proj2 (final_spec (Z.to_nat retries))).
+    apply (final_bounds (Z.to_nat retries)).
   Qed.
 
   Lemma backoff_monotone_guarded :
@@ -193,35 +226,39 @@ End Guarded.
 (* ------------------------------------------------------------------------ *)
 (** The statements of Props_C18.v *)
 
+Lemma guard_of : forall base mx, in_int64 base = true -> in_int64 mx = true -> base <= mx ->
+  backoff_guard base mx = true.
+Proof.
+  intros base mx A B C. unfold backoff_guard. rewrite A, B. simpl. now apply Z.leb_le.
+Qed.
+
 Theorem backoff_bounds_thm :
   forall base mx retries : Z,
-  0 <= base -> base <= mx -> mx <= 2 ^ 53 ->
+  in_int64 base = true -> in_int64 mx = true -> base <= mx ->
   base <= backoff base mx retries <= mx.
 Proof.
-  intros base mx retries H0 H1 H2. apply backoff_bounds_guarded.
-  unfold backoff_guard, two53. rewrite !andb_true_iff. repeat split; apply Z.leb_le; lia.
+  intros base mx retries A B C. apply backoff_bounds_guarded. now apply guard_of.
 Qed.
 
 Theorem backoff_monotone_thm :
   forall base mx r1 r2 : Z,
-  0 <= base -> base <= mx -> mx <= 2 ^ 53 -> r1 <= r2 ->
+  in_int64 base = true -> in_int64 mx = true -> base <= mx -> r1 <= r2 ->
   backoff base mx r1 <= backoff base mx r2.
 Proof.
-  intros base mx r1 r2 H0 H1 H2 H. apply backoff_monotone_guarded; [| exact H].
-  unfold backoff_guard, two53. rewrite !andb_true_iff. repeat split; apply Z.leb_le; lia.
+  intros base mx r1 r2 A B C H. apply backoff_monotone_guarded; [now apply guard_of | exact H].
 Qed.
 
 (* the monitor agrees with the theorems: on the model's own outputs it holds
-   for every input inside the guard *)
+   for all int64 arguments *)
 Theorem c18_backoff_on_model :
   forall base mx retries : Z,
-  backoff_guard base mx = true ->
+  in_int64 base = true -> in_int64 mx = true ->
   c18_backoff base mx retries (Some (backoff base mx retries))
               (Some (backoff base mx (wrap64 (retries + 1)))) = true.
 Proof.
-  intros base mx retries G. unfold c18_backoff.
-  assert (G' := G). unfold backoff_guard in G'. rewrite !andb_true_iff in G'.
-  destruct G' as [[A B] C]. rewrite B.
+  intros base mx retries A B. unfold c18_backoff.
+  destruct (base <=? mx) eqn:C; [| reflexivity]. apply Z.leb_le in C.
+  pose proof (guard_of base mx A B C) as G.
   pose proof (backoff_bounds_guarded base mx G retries) as [P1 P2].
   pose proof (backoff_bounds_guarded base mx G (wrap64 (retries + 1))) as [Q1 Q2].
   rewrite !andb_true_iff. repeat split; try (apply Z.leb_le; assumption).
@@ -248,15 +285,13 @@ Proof.
   pose proof (backoff_monotone_guarded _ _ G r1 r2 H). lia.
 Qed.
 
-(* ---- finding B1: outside the guard both claims fail ---- *)
-Theorem backoff_bounds_refuted_rounding :
-  let b := 2 ^ 53 + 1 in b <= b /\ backoff b b 0 < b.
-Proof. vm_compute. split; [discriminate | reflexivity]. Qed.
-
-Theorem backoff_bounds_refuted_negative :
-  -2 <= 5 /\ backoff (-2) 5 1 = -3 /\ backoff (-2) 5 1 < -2.
-Proof. vm_compute. repeat split; discriminate. Qed.
-
-Theorem backoff_monotone_refuted_negative :
-  backoff (-2) 5 1 < backoff (-2) 5 0.
-Proof. vm_compute. reflexivity. Qed.
+(* ---- the inputs of the former finding B1 (fixed by 76e44a5) ---- *)
+Theorem backoff_former_B1_inputs :
+  (let b := 2 ^ 53 + 1 in backoff b b 0 = b) /\
+  backoff (-2) 5 0 = -2 /\ backoff (-2) 5 1 = -2 /\
+  backoff max_int64 max_int64 0 = max_int64 /\
+  backoff (2 ^ 53 + 1) (2 ^ 53 + 3) 0 = 2 ^ 53 + 1 /\
+  backoff (2 ^ 53 + 1) (2 ^ 53 + 3) 1 = 2 ^ 53 + 3 /\
+  (* a zero or negative base no longer spins: 2^62 retries are immediate *)
+  backoff 0 10 (2 ^ 62) = 0 /\ backoff min_int64 max_int64 (2 ^ 62) = min_int64.
+Proof. vm_compute. repeat split; reflexivity. Qed.
